@@ -93,3 +93,132 @@ def yaml_directive_huge_number(d):
     if d.get('exc') != 'ValueError': return False
     t = _text_of(d)
     return bool(t) and re.search(r'%YAML[ ]+([0-9]{4301,}\.|[0-9]+\.[0-9]{4301,})', t) is not None
+
+def _strings_of_case(d):
+    """all scalar strings of a value case (encoded graph) or an event case (emitter line)"""
+    out = []
+    if d.get('value'):
+        from tools.values import decode
+        try: o = decode(d['value'])
+        except Exception: o = None
+        seen = set()
+        def walk(o):
+            if isinstance(o, str): out.append(o)
+            elif isinstance(o, (list, set, dict)):
+                if id(o) in seen: return
+                seen.add(id(o))
+                if isinstance(o, dict):
+                    for k, v in o.items(): walk(k); walk(v)
+                else:
+                    for x in o: walk(x)
+        walk(o)
+    if d.get('events'):
+        from tools.events import dec_case
+        try:
+            evs, _ = dec_case(d['events'])
+            out += [e[5] for e in evs if e[0] == 'SC']
+        except Exception: pass
+    return out
+
+def _opt(d, name):
+    o = d.get('opts')
+    if o is None and d.get('events'):
+        from tools.events import dec_case
+        try: o = dec_case(d['events'])[1]
+        except Exception: o = {}
+    return (o or {}).get(name)
+
+def nel_unquoted_under_allow_unicode(d):
+    """a str containing U+0085 dumped/emitted with allow_unicode=True: analyze_scalar counts NEL as a printable unicode
+    character, so plain/single-quoted/literal/folded styles stay allowed; the scanner then reads the raw NEL as a line break
+    (-> '\\n' or a folded space)."""
+    if d.get('kind') not in ('roundtrip_differs', 'emit_parse_differs', 'dump_unreadable', 'emit_unparsable', 'not_fixed_point', 'count_differs'): return False
+    return bool(_opt(d, 'allow_unicode')) and any('\x85' in s for s in _strings_of_case(d))
+
+def dq_fold_after_escaped_space(d):
+    r"""write_double_quoted folds twice in a row when the column already exceeds the width (deep indentation / tiny width):
+    right after a fold whose continuation starts with the escaped space it folds again and emits a second backslash, so the
+    output contains a continuation line made only of indentation and '\\' (an escaped backslash).  Recognised by that line
+    in the emitted text; never produced otherwise (the writer does not leave unescaped breaks inside double quotes)."""
+    if d.get('kind') not in ('roundtrip_differs', 'emit_parse_differs', 'not_fixed_point'): return False
+    return re.search(r'(^|[\r\n]) *\\\\(\r|\n|$)', d.get('text') or '') is not None and _opt(d, 'width') is not None
+
+def folded_more_indented_line_folded(d):
+    """folded style ('>') with a small width: write_folded folds at a space inside a more-indented line (a line that
+    starts with a space); on reading, more-indented lines keep their breaks, so the space comes back as a line break."""
+    if d.get('kind') not in ('roundtrip_differs', 'emit_parse_differs', 'not_fixed_point'): return False
+    if _opt(d, 'width') is None and not d.get('events'): return False
+    folded = _opt(d, 'default_style') == '>'
+    if d.get('events'):
+        from tools.events import dec_case
+        try: folded = any(e[0] == 'SC' and e[6] == '>' for e in dec_case(d['events'])[0])
+        except Exception: folded = False
+    return folded and any(re.search(r'(^|\n) +[^ \n]+ +[^ \n]', s) for s in _strings_of_case(d))
+
+def primary_handle_redefined(d):
+    """a document whose %TAG directive redefines the primary handle '!' (e.g. %TAG ! !my-) and that carries a local tag
+    ('!x') not under the new prefix: the emitter keeps the default '!' -> '!' prefix entry, writes the tag as '!x', and
+    the parser reads it back as '<prefix>x'."""
+    if d.get('kind') not in ('emit_parse_differs',) or not d.get('events'): return False
+    from tools.events import dec_case
+    try: evs, _ = dec_case(d['events'])
+    except Exception: return False
+    prefix = None
+    for e in evs:
+        if e[0] == 'DS':
+            prefix = None
+            for h, p in e[3]:
+                if h == '!' and p != '!': prefix = p
+        elif e[0] in ('SC', 'QS', 'MS') and prefix is not None:
+            t = e[2]
+            if t and t.startswith('!') and t != '!' and not t.startswith(prefix): return True
+    return False
+
+def tag_prefix_needs_escape(d):
+    """a %TAG prefix containing a character outside the URI set (e.g. non-ASCII): prepare_tag_prefix (emitter.py) iterates
+    over the *encoded bytes* and calls ord() on an int -> TypeError instead of writing the %XX escape."""
+    if d.get('exc') != 'TypeError' or not d.get('events'): return False
+    from tools.events import dec_case
+    try: evs, _ = dec_case(d['events'])
+    except Exception: return False
+    ok = set("-;/?:@&=+$,_.~*'()[]!") | set('abcdefghijklmnopqrstuvwxyzABCDEFGHIJKLMNOPQRSTUVWXYZ0123456789')
+    return any(e[0] == 'DS' and any(any(ch not in ok for ch in p[1:]) for h, p in e[3]) for e in evs)
+
+def empty_plain_root_with_tag(d):
+    """a document whose root is a scalar with empty text, a tag and implicit[0] set (the tag may be elided in plain style):
+    the emitter neither forces '---' (check_empty_document only looks at untagged scalars) nor writes anything for the empty
+    plain scalar, so the document text is empty / just '...'."""
+    if d.get('kind') not in ('emit_unparsable', 'emit_parse_differs', 'count_differs') or not d.get('events'): return False
+    from tools.events import dec_case
+    try: evs, o = dec_case(d['events'])
+    except Exception: return False
+    for a, b in zip(evs, evs[1:]):
+        if a[0] == 'DS' and b[0] == 'SC' and b[5] == '' and b[3] and b[2] is not None and b[1] is None and b[6] in (None, '|', '>') and not o.get('canonical'):
+            return True
+    return False
+
+def libyaml_plain_implicit_written_quoted(d):
+    """LibYAML emitter only: a scalar event with implicit == (True, False) and a tag whose text cannot be written plain.
+    libyaml analyses the tag only when neither implicit flag is set, so it treats the event as untagged, picks a quoted
+    style and writes the non-specific tag '!' -- the specific tag is lost (the Python emitter writes it)."""
+    if d.get('backend') != 'c' or d.get('kind') != 'emit_parse_differs' or not d.get('events'): return False
+    if "vs '!' (implicit (True, False))" not in (d.get('what') or ''): return False
+    from tools.events import dec_case
+    try: evs, _ = dec_case(d['events'])
+    except Exception: return False
+    return any(e[0] == 'SC' and e[3] and not e[4] and e[2] not in (None, '!') for e in evs)
+
+def libyaml_empty_plain_root(d):
+    """LibYAML emitter only: an implicit document whose root is an untagged, unanchored, empty scalar written plain:
+    libyaml writes nothing for it (no forced '---'), so the document vanishes or the following text does not parse."""
+    if d.get('backend') != 'c' and d.get('dumper') != 'c': return False
+    if d.get('events'):
+        from tools.events import dec_case
+        try: evs, o = dec_case(d['events'])
+        except Exception: return False
+        for a, b in zip(evs, evs[1:]):
+            if a[0] == 'DS' and not a[1] and b[0] == 'SC' and b[5] == '' and b[1] is None and b[3] and b[6] in (None, '|', '>'): return True
+        return False
+    if d.get('docs') is not None:
+        return any(x == 'S e' or x == 'ROOT S e' for x in d['docs']) and not (_opt(d, 'explicit_start') or _opt(d, 'canonical') or _opt(d, 'default_style') in ('"', "'"))
+    return False
